@@ -16,7 +16,8 @@ props.prop(
                 'together; the invalid mask is accumulated on both the cached and the uncached branch and applied before the '
                 'scalar dimensions are dropped; the two sibling calls in the image layer state agree.',
     decides='cache-key completeness, hash-test-before-read and eviction, invalid-mask accumulation on both branches, sibling '
-            'agreement of the data-layer and subset-layer calls',
+            'agreement of the data-layer and subset-layer calls; that the stored key never aliases the caller\'s bounds list; '
+            'index roles of every reader of the dependence table',
     not_decided='rounding, out-of-range handling, wildcard (AnyScalar) semantics, the link translation itself',
     assumptions=['cache_id is None => no cache access (checked: every cache store is under that test)'])
 
